@@ -126,6 +126,12 @@ def generate(rng, tier, i):
     else:
         left, lkind = gen_T(rng, vars_, 2), "T"
     right = gen_X(rng, vars_, depth - 1)
+    if pool and rng.random() < 0.4:
+        # a kept operand object is compared directly (e >= 0, e == 0, t < e, ...) and used again afterwards
+        k = rng.randrange(len(pool))
+        left, lkind = ["ref", k], {"lit": "L", "negL": "L"}.get(pool[k][0], "T" if pool[k][0] in ("term", "L*k", "k*L", "T*k", "k*T", "negT") else "E")
+        if rng.random() < 0.6:
+            right = rng.choice([["int", 0], ["int", 0], ["E0+", ["int", 0]], ["int", _int(rng)]])
     op = rng.choice(OPS)
     _POOL[0] = 0
     if right[0] == "int" and lkind == "E" and rng.random() < 0.3:
